@@ -33,17 +33,29 @@ type vC18Scen struct {
 	Ms      int    `json:"ms"`
 	Workers int    `json:"workers"`
 	Seed    int    `json:"seed"`
+	// a scripted scenario (deterministic interleavings driven through blocking fakes) can be told to run exactly
+	// one script: that is the replay / corpus form of a violation it found among the scripts it generated
+	Script json.RawMessage `json:"script,omitempty"`
+}
+
+// a violation a scripted scenario established by itself (a deadlock proven by the goroutine dump of one script,
+// a panic of one script): reported by the parent with the script as the case input
+type vC18DirectObs struct {
+	Sig    string          `json:"sig"`
+	Detail string          `json:"detail"`
+	Script json.RawMessage `json:"script"`
 }
 
 // what a child reports back
 type vC18Obs struct {
-	Cap      int            `json:"cap"`   // 0 = no bound, else the maximal length of a view (window capacity)
-	Views    [][][2]int     `json:"views"` // distinct views, each as runs (first id, length) of consecutive descending ids
-	Stats    []int          `json:"stats"` // scenario-specific counts of malformed results; all must be 0
-	Ops      map[string]int `json:"ops"`
-	Panics   []string       `json:"panics"`
-	Deadlock string         `json:"deadlock"`
-	Done     bool           `json:"done"`
+	Cap      int             `json:"cap"`   // 0 = no bound, else the maximal length of a view (window capacity)
+	Views    [][][2]int      `json:"views"` // distinct views, each as runs (first id, length) of consecutive descending ids
+	Stats    []int           `json:"stats"` // scenario-specific counts of malformed results; all must be 0
+	Ops      map[string]int  `json:"ops"`
+	Panics   []string        `json:"panics"`
+	Deadlock string          `json:"deadlock"`
+	Direct   []vC18DirectObs `json:"direct"`
+	Done     bool            `json:"done"`
 }
 
 type vC18Ctx struct {
@@ -71,6 +83,14 @@ func (x *vC18Ctx) stat(i int, d int) {
 		x.obs.Stats = append(x.obs.Stats, 0)
 	}
 	x.obs.Stats[i] += d
+	x.mu.Unlock()
+}
+
+// direct records a violation the scenario established by itself, with the script that produced it
+func (x *vC18Ctx) direct(sig, detail string, script interface{}) {
+	b, _ := json.Marshal(script)
+	x.mu.Lock()
+	x.obs.Direct = append(x.obs.Direct, vC18DirectObs{Sig: sig, Detail: detail, Script: b})
 	x.mu.Unlock()
 }
 
@@ -366,6 +386,15 @@ func TestVerifC18(t *testing.T) {
 			}
 		}
 		crashed := 0
+		for _, d := range obs.Direct {
+			if !sigs[d.Sig] {
+				sigs[d.Sig] = true
+				scd := sc
+				scd.Script = d.Script
+				vC18Direct(d.Sig, d.Detail, scd)
+			}
+			crashed = 1
+		}
 		if obs.Deadlock != "" {
 			vC18Direct("deadlock:"+sc.Name, obs.Deadlock, sc)
 			crashed = 1
